@@ -629,7 +629,7 @@ def gen_spawn_program(rng, max_workers=8, fail=False):
         for kind, c in items:
             if kind == "spawn":
                 a, s, l = args[c]
-                st.append(f"let lst{c} = {lit(l)};")
+                st.append(f"let lst{c}: [int] = {lit(l)};")
                 st.append(f"spawn w{c}({lit(a)}, {lit(s)}, lst{c});")
                 ac.append(("s", c))
                 st.append(f'println("{name} kept", lst{c});')
